@@ -7,14 +7,15 @@ from common import *
 ID = 'C15'
 PKG = 'deb'
 P = MOD + '/deb.'
-ROOTS = [P + n for n in ('VerifC15Step', 'VerifC15Iterate')]
+ROOTS = [P + n for n in ('VerifC15Step', 'VerifC15Iterate', 'VerifC15Deb')]
 FIELDS = dict(name=(0, 16), ts=(16, 28), uid=(28, 34), gid=(34, 40), mode=(40, 48), size=(48, 58), magic=(58, 60))
 GOOD = b'debian-binary   1342943816  0     0     100644  4         `\n'
 META = dict(
-    functions_encoded=['(*Ar).Next', 'deb.parseArEntry', 'deb.toDecimal', 'deb.LoadAr', 'deb.checkAr', 'io.NewSectionReader', 'strconv.Atoi', 'strings.TrimSpace', 'bytes.Reader.ReadAt'],
-    stubs=['io.ReaderAt for the step: serves count (<= 60) arbitrary bytes at the current offset, an error iff count < 60 (io.ReaderAt contract)'],
-    bounds={'quick': 'one step of Next from any offset in [0, 2^62), the other columns holding a valid header: each column in turn with 3 arbitrary bytes (all 256 values) left-aligned, 2 arbitrary bytes right-aligned, and at full width over [0-9 +-a] (name also / and .); the magic with 2 arbitrary bytes; size (2 arbitrary bytes) and magic together; all four numeric columns together with 2 bytes over [0-9 +-a]; short reads of 0, 1, 59 bytes; whole-archive iteration over every byte string of length <= 3 after the global magic and over a valid member followed by up to 2 arbitrary bytes',
-            'thorough': 'size and magic and one more column together; numeric columns together at 4 bytes'},
+    functions_encoded=['(*Ar).Next', 'deb.parseArEntry', 'deb.toDecimal', 'deb.LoadAr', 'deb.checkAr', 'deb.Load', 'deb.loadDeb', 'deb.loadDeb2', 'deb.loadDeb2Control', 'deb.loadDeb2Data', '(*ArEntry).IsTarfile/Tarfile', 'deb.DecompressorFor', 'io.NewSectionReader', 'strconv.Atoi', 'strings.TrimSpace', 'bytes.Reader.ReadAt'],
+    stubs=['io.ReaderAt for the step: serves count (<= 60) arbitrary bytes at the current offset, an error iff count < 60 (io.ReaderAt contract)',
+           'archive/tar as in C14: an abstract entry list; a member that is not such a container is a malformed tarball (the real archive/tar on hostile bytes is outside the claim, as the statement says for the decoders)'],
+    bounds={'quick': 'one step of Next from any offset in [0, 2^62), the other columns holding a valid header: each column in turn with 3 arbitrary bytes (all 256 values) left-aligned, 2 arbitrary bytes right-aligned, and at full width over [0-9 +-a] (name also / and .); the magic with 2 arbitrary bytes; size (2 arbitrary bytes) and magic together; all four numeric columns together with 2 bytes over [0-9 +-a]; short reads of 0, 1, 59 bytes; whole-archive iteration over every byte string of length <= 3 after the global magic and over a valid member followed by up to 2 arbitrary bytes; .deb loading: debian-binary holding 0-3 arbitrary bytes or (0-2 bytes, newline, 0-2 bytes), each member name with 2 arbitrary bytes in front of, behind or instead of it, a control member of 0-2 arbitrary bytes, 8 reorderings / duplications / omissions of the members, a valid package cut at every offset',
+            'thorough': 'debian-binary up to 4 bytes, names 3, raw control 3; size and magic and one more column together; numeric columns together at 4 bytes'},
     outside_claim=['the decompressors and archive/tar on hostile streams (also excluded by the statement)', 'offsets beyond 2^62'],
     assumptions=['progress of at least 60 bytes per successful step bounds the number of steps by len/60; a step depends only on the bytes served and the offset, so repeated loading gives the same outcome'])
 
@@ -44,6 +45,18 @@ def jobs(tier):
     for n in range(0, 3):
         js.append(dict(name='iter_member_%d' % n, kind='iter', pre=b'!<arch>\n' + GOOD + b'2.0\n', n=n))
     js.append(dict(name='iter_nomagic', kind='iter', pre=b'', n=3))
+    # .deb loading on structured corruptions of a valid package
+    for n in range(0, 4 if tier == 'quick' else 5):
+        js.append(dict(name='deb_binary_%d' % n, kind='deb', what='binary', n=n))
+    js.append(dict(name='deb_binary_line', kind='deb', what='binary_line'))
+    for which in range(3):
+        js.append(dict(name='deb_name_%d' % which, kind='deb', what='name', which=which, n=2 if tier == 'quick' else 3))
+    for n in range(0, 3 if tier == 'quick' else 4):
+        js.append(dict(name='deb_rawctl_%d' % n, kind='deb', what='rawctl', n=n))
+    for order in range(1, 9):
+        js.append(dict(name='deb_order_%d' % order, kind='deb', what='order', order=order))
+    for lo in range(0, 420, 60):
+        js.append(dict(name='deb_trunc_%d' % lo, kind='deb', what='trunc', lo=lo, hi=lo + 60))
     return js
 
 
@@ -63,9 +76,61 @@ def run_job(env, job):
         assume += [off >= 0, off < (1 << 62)]
         return run_harness(env, PKG, 'VerifC15Step', [Str(hdr), job['count'], off], assume, unwind=80,
                            sample='one step: columns %r (any = all 256 byte values, restr = [0-9 +-a]), %d bytes served, any offset < 2^62' % (job['cols'], job['count']))
+    if job['kind'] == 'deb':
+        return run_deb(env, job)
     s = symstr('x', job['n'])
     return run_harness(env, PKG, 'VerifC15Iterate', [Str(tuple(job['pre']) + tuple(s))], [], unwind=120,
                        sample='whole-archive iteration: %d known bytes followed by %d arbitrary bytes' % (len(job['pre']), job['n']))
+
+
+NAMES = [b'debian-binary', b'control.tar', b'data.tar']
+
+
+def run_deb(env, job):
+    w = job['what']
+    args = [b'2.0\n'] + NAMES + [b'', False, 0, -1]
+    assume = []
+    if w == 'binary':
+        args[0] = symstr('b', job['n'])
+        sample = 'debian-binary member holding %d arbitrary bytes (all 256 values each)' % job['n']
+    elif w == 'binary_line':
+        # a first line of 0-2 arbitrary bytes, a newline, then 0-2 more bytes
+        rs = []
+        for a in range(3):
+            for c in range(3):
+                args2 = list(args)
+                args2[0] = Str(tuple(symstr('p', a)) + (10,) + tuple(symstr('q', c)))
+                rs.append(run_harness(env, PKG, 'VerifC15Deb', args2, [], unwind=400, sample='debian-binary = %d arbitrary bytes, newline, %d arbitrary bytes' % (a, c)))
+        return merge_results(rs)
+    elif w == 'name':
+        # the member name: arbitrary bytes in front of / behind / instead of the valid name
+        rs = []
+        base = NAMES[job['which']]
+        for shape in ('prefix', 'suffix', 'whole'):
+            x = symstr('n', job['n'])
+            nm = {'prefix': tuple(x) + tuple(base[:16 - job['n']]), 'suffix': tuple(base) + tuple(x), 'whole': tuple(x)}[shape]
+            if len(nm) > 16:
+                continue
+            args2 = list(args)
+            args2[1 + job['which']] = Str(nm)
+            # a blank or newline inside the name column is cut by the reader; the harness writes what it is given
+            rs.append(run_harness(env, PKG, 'VerifC15Deb', args2, [], unwind=400, sample='member %d named by %d arbitrary bytes as %s of %r' % (job['which'], job['n'], shape, base.decode())))
+        return merge_results(rs)
+    elif w == 'rawctl':
+        args[4] = symstr('c', job['n'])
+        args[5] = True
+        sample = 'control member holding %d arbitrary bytes instead of a tarball' % job['n']
+    elif w == 'order':
+        args[6] = job['order']
+        sample = 'member order / duplication / omission variant %d' % job['order']
+    elif w == 'trunc':
+        rs = []
+        for t in range(job['lo'], job['hi']):
+            args2 = list(args)
+            args2[7] = t
+            rs.append(run_harness(env, PKG, 'VerifC15Deb', args2, [], unwind=400, sample='valid package cut after %d bytes' % t))
+        return merge_results(rs)
+    return run_harness(env, PKG, 'VerifC15Deb', args, assume, unwind=400, sample=sample)
 
 
 def validation_calls(env, seed):
@@ -77,6 +142,14 @@ def validation_calls(env, seed):
         for _ in range(3):
             h[rnd.randrange(60)] = rnd.randrange(256)
         calls.append(('VerifC15Step', [bytes(h), 60, rnd.randrange(1 << 40)]))
+    for b_ in (b'2.0\n', b'\n', b'2.0', b'', b'2.1\n', b'\n2.0\n'):
+        calls.append(('VerifC15Deb', [b_] + NAMES + [b'', False, 0, -1]))
+    for order in range(9):
+        calls.append(('VerifC15Deb', [b'2.0\n'] + NAMES + [b'', False, order, -1]))
+    for t in (0, 7, 8, 30, 68, 70, 72, 100, 132, 200, 300):
+        calls.append(('VerifC15Deb', [b'2.0\n'] + NAMES + [b'', False, 0, t]))
+    calls.append(('VerifC15Deb', [b'2.0\n'] + NAMES + [b'xx', True, 0, -1]))
+    calls.append(('VerifC15Deb', [b'2.0\n', b'debian-binary', b'control.tar.gz', b'data.tar', b'xx', True, 0, -1]))
     for a in (b'', b'!<arch>\n', b'!<arch>\n\n', b'!<arch>\n' + GOOD + b'2.0\n', b'!<arch>\n' + GOOD + b'2.0\n\n', b'!<arch>\n' + GOOD):
         calls.append(('VerifC15Iterate', [a]))
     return calls
